@@ -185,6 +185,104 @@ theorem sorted_perm_unique (P : Params F) (hL : FltLaws P) (cfg : Cfg) (k : Kind
   cases this
   rw [hn]; congr; omega
 
+/-! ## asort / asorti on the source containers themselves -/
+
+/-- whatever the comparator (default or user function, consistent or not), whatever the source (nil, map with any
+    keys, array with any occupied slots) and whichever variable receives it: the result of asort is a permutation of
+    the source's values, that of asorti a permutation of the source's subscripts, and the return value is their number -/
+theorem asort_src_perm (c : Val F → Val F → Except Err Int) (sortKeys : Bool) (src : Src F) (rv : Nat) (out : List (Val F))
+    (h : fncAsortSrc c sortKeys src = .ok (rv, out)) :
+    rv = out.length ∧ out.Perm (src.elems sortKeys) := by
+  have key : ∀ l : List (Val F), (match isort c l with
+      | .ok o => (Except.ok (o.length, o) : Except Err (Nat × List (Val F)))
+      | .error e => .error e) = .ok (rv, out) → rv = out.length ∧ out.Perm l := by
+    intro l hl
+    cases ho : isort c l with
+    | error e => simp [ho] at hl
+    | ok o =>
+      simp only [ho] at hl
+      cases hl
+      exact ⟨rfl, isort_perm _ l _ ho⟩
+  cases src with
+  | nil => simp [fncAsortSrc] at h; obtain ⟨rfl, rfl⟩ := h; simp [Src.elems, Src.subscripts, Src.values]
+  | map ps => exact key _ h
+  | arr sl => exact key _ h
+
+/-- the subscripts asorti sorts for an array are exactly the NUMBERS of its occupied slots (slot 0, gaps and deleted
+    elements included in the count of positions), as integers -/
+theorem asorti_array_subscripts (sl : List (Option (Val F))) (v : Val F) :
+    v ∈ (Src.arr sl).subscripts ↔ ∃ j w, v = .int (j : Nat) ∧ sl[j]? = some (some w) := by
+  simp only [Src.subscripts, List.mem_map]
+  constructor
+  · rintro ⟨⟨j, w⟩, hm, rfl⟩
+    exact ⟨j, w, rfl, by simpa using (mem_occupied sl 0 j w).mp hm⟩
+  · rintro ⟨j, w, rfl, h⟩
+    exact ⟨(j, w), (mem_occupied sl 0 j w).mpr ⟨Nat.zero_le _, by simpa using h⟩, rfl⟩
+
+/-- the subscripts of a map are its keys as plain (unflagged) strings -/
+theorem asorti_map_subscripts (ps : List (Str × Val F)) :
+    (Src.map ps).subscripts = ps.map (fun p => Val.str p.1 0) := rfl
+
+/-- asorti with the default comparator ALWAYS succeeds and returns the subscripts in non-decreasing order: the keys
+    of a map are all plain strings, the slot numbers of an array all integers -/
+theorem asorti_sorted (P : Params F) (hL : FltLaws P) (cfg : Cfg) (src : Src F) :
+    ∃ out, fncAsortSrc (cmpVal P cfg .none) true src = .ok (src.subscripts.length, out) ∧
+      out.Perm src.subscripts ∧ out.Pairwise (Le P cfg) := by
+  have key : ∀ (k : Kind) (l : List (Val F)), (∀ x ∈ l, x.hasKind k = true) →
+      ∃ out, isort (cmpVal P cfg .none) l = .ok out ∧ out.Perm l ∧ out.Pairwise (Le P cfg) :=
+    fun k l hk => isort_sorted _ _ (kind_tpo P hL cfg k) l hk
+  cases src with
+  | nil => exact ⟨[], rfl, List.Perm.refl _, List.Pairwise.nil⟩
+  | map ps =>
+    obtain ⟨out, ho, hp, hs⟩ := key .str ((Src.map ps).subscripts) (by
+      intro x hx; simp only [Src.subscripts, List.mem_map] at hx; obtain ⟨p, _, rfl⟩ := hx; rfl)
+    exact ⟨out, by simp [fncAsortSrc, Src.elems, ho, hp.length_eq], hp, hs⟩
+  | arr sl =>
+    obtain ⟨out, ho, hp, hs⟩ := key .num ((Src.arr sl).subscripts) (by
+      intro x hx; simp only [Src.subscripts, List.mem_map] at hx; obtain ⟨p, _, rfl⟩ := hx; rfl)
+    exact ⟨out, by simp [fncAsortSrc, Src.elems, ho, hp.length_eq], hp, hs⟩
+
+/-- asort with the default comparator on a source whose values are all of one kind: succeeds, permutation, non-decreasing -/
+theorem asort_src_sorted_on_kind (P : Params F) (hL : FltLaws P) (cfg : Cfg) (k : Kind) (src : Src F)
+    (hk : ∀ x ∈ src.values, x.hasKind k = true) :
+    ∃ out, fncAsortSrc (cmpVal P cfg .none) false src = .ok (src.values.length, out) ∧
+      out.Perm src.values ∧ out.Pairwise (Le P cfg) := by
+  obtain ⟨out, ho, hp, hs⟩ := isort_sorted _ _ (kind_tpo P hL cfg k) src.values hk
+  cases src with
+  | nil => simp [Src.values, isort, isortAux] at ho; subst ho; exact ⟨[], rfl, List.Perm.refl _, List.Pairwise.nil⟩
+  | map ps => exact ⟨out, by simp [fncAsortSrc, Src.elems, ho, hp.length_eq], hp, hs⟩
+  | arr sl => exact ⟨out, by simp [fncAsortSrc, Src.elems, ho, hp.length_eq], hp, hs⟩
+
+/-- a user comparator written with the language's own `<` and `>` (`(a<b)? -1: ((a>b)? 1: 0)`) IS `hawk_rtx_cmpval` on
+    scalars, so `asort(src, dst, ucmp)` sorts by the same relation -/
+theorem userCmp3_eq_cmp (P : Params F) (cfg : Cfg) (a b : Val F) (ha : a.scalar = true) (hb : b.scalar = true) :
+    userCmp3 P cfg a b = cmpVal P cfg .none a b := userCmp3_eq_cmp' P cfg a b ha hb
+
+/-- any user comparator that is a total preorder on the source's elements gives a result sorted by that comparator -/
+theorem asort_user_sorted (c : Val F → Val F → Except Err Int) (S : Val F → Prop) (hT : TotalPreorderOn c S)
+    (sortKeys : Bool) (src : Src F) (hS : ∀ x ∈ src.elems sortKeys, S x) :
+    ∃ out, fncAsortSrc c sortKeys src = .ok ((src.elems sortKeys).length, out) ∧
+      out.Perm (src.elems sortKeys) ∧ out.Pairwise (LeC c) := by
+  obtain ⟨out, ho, hp, hs⟩ := isort_sorted c S hT (src.elems sortKeys) hS
+  cases src with
+  | nil =>
+    have : out = [] := by
+      have := hp.length_eq; cases sortKeys <;> simp [Src.elems, Src.subscripts, Src.values] at this <;> exact this
+    subst this
+    exact ⟨[], by cases sortKeys <;> simp [fncAsortSrc, Src.elems, Src.subscripts, Src.values], hp, hs⟩
+  | map ps => exact ⟨out, by simp [fncAsortSrc, ho, hp.length_eq], hp, hs⟩
+  | arr sl => exact ⟨out, by simp [fncAsortSrc, ho, hp.length_eq], hp, hs⟩
+
+/-- an array with slot 0 in use, a gap and a deleted element: asorti yields the slot numbers 0, 2, 5 -/
+example : fncAsortSrc (cmpVal exampleParams ⟨false, false, true⟩ .none) true
+    (.arr [some (.int 50), none, some (.int 30), none, none, some (.int 10)]) = .ok (3, [.int 0, .int 2, .int 5]) := rfl
+
+example : fncAsortSrc (cmpVal exampleParams ⟨false, false, true⟩ .none) false
+    (.arr [some (.int 50), none, some (.int 30), none, none, some (.int 10)]) = .ok (3, [.int 10, .int 30, .int 50]) := rfl
+
+example : fncAsortSrc (userCmp3 exampleParams ⟨false, false, true⟩) true
+    (.map [([57], .int 1), ([49, 48], .int 2)]) = .ok (2, [.str [49, 48] 0, .str [57] 0]) := rfl
+
 /-! ## non-vacuity: the hypotheses are satisfiable, and "one kind" cannot be dropped -/
 
 def exLower (c : Nat) : Nat := if 65 ≤ c ∧ c ≤ 90 then c + 32 else c
